@@ -43,6 +43,26 @@ def gen_recovery_facts():
                     if isinstance(m, ast.Assign) and ast.unparse(m.targets[0]) == "self._spa_state":
                         return _states_in(m.value)[0]
         return "?"
+    # the LOCATING_FINISHED branch: the states from which it moves the manager ([] = from any state)
+    fin_guard, found_fin = [], False
+    for n in ast.walk(he):
+        if isinstance(n, ast.If) and "LOCATING_FINISHED" in ast.unparse(n.test) and "event" in ast.unparse(n.test):
+            found_fin = True
+            body = [b for b in n.body if not (isinstance(b, ast.Expr) and isinstance(b.value, ast.Constant))]
+            if len(body) == 1 and isinstance(body[0], ast.If):
+                fin_guard = _states_in(body[0].test)
+                if not fin_guard or body[0].orelse:
+                    raise Untranslatable("_handle_event: LOCATING_FINISHED branch has a guard that is not a test on states")
+            elif not (len(body) == 1 and isinstance(body[0], ast.Assign)):
+                raise Untranslatable("_handle_event: LOCATING_FINISHED branch changed shape")
+            break
+    if not found_fin:
+        raise Untranslatable("_handle_event: no LOCATING_FINISHED branch")
+    # async_locate_spas stores the descriptors before it announces LOCATING_FINISHED, and announces it in a finally
+    als = find_function(man, "GeckoAsyncSpaMan.async_locate_spas")
+    src_als = ast.unparse(als)
+    if src_als.find("self._spa_descriptors = locator.spas") < 0 or src_als.find("self._spa_descriptors = locator.spas") > src_als.find("LOCATING_FINISHED"):
+        raise Untranslatable("async_locate_spas: descriptors are not stored before LOCATING_FINISHED")
     # catches of the pump
     survives = False
     for n in ast.walk(pump):
@@ -61,6 +81,8 @@ def gen_recovery_facts():
            f"def stateOnRfError : String := {T.lstr(target_of('ERROR_RF_ERROR'))}",
            f"def stateOnRetryExceeded : String := {T.lstr(target_of('CONNECTION_PROTOCOL_RETRY_COUNT_EXCEEDED'))}",
            f"def stateOnLocatingFinished : String := {T.lstr(target_of('LOCATING_FINISHED'))}",
+           f"def stateOnLocatingStarted : String := {T.lstr(target_of('LOCATING_STARTED'))}",
+           f"/-- LOCATING_FINISHED moves the manager only from these states ([] = from any state) -/\ndef locatingFinishedGuard : List String := {lst(fin_guard)}",
            f"def pumpCatchesExceptions : Bool := {'true' if survives else 'false'}",
            "end GeckoModel.Generated\n"]
     return "\n".join(out)
